@@ -181,7 +181,14 @@ func runHealth(sc healthScen, idx int) (map[string]any, error) {
 			return nil, err
 		}
 		defer rp.Close()
-		hc := map[string]any{"passive": map[string]any{"fail_duration": int64(ms(sc.F)), "max_fails": sc.M}}
+		passive := map[string]any{"fail_duration": int64(ms(sc.F))}
+		effM := sc.M
+		if sc.M > 0 {
+			passive["max_fails"] = sc.M
+		} else {
+			effM = 1 // max_fails left out: the documented default
+		}
+		hc := map[string]any{"passive": passive}
 		if sc.Script == 7 {
 			hc["active"] = map[string]any{"interval": int64(ms(40)), "timeout": int64(ms(300))}
 		}
@@ -239,7 +246,7 @@ func runHealth(sc healthScen, idx int) (map[string]any, error) {
 				ev = append(ev, e)
 			}
 		}
-		out["F"], out["M"], out["tol"], out["ev"] = sc.F, sc.M, 45, ev
+		out["F"], out["M"], out["tol"], out["ev"] = sc.F, effM, 45, ev
 		// let the last forgetters finish before the handler goes away
 		return out, nil
 
